@@ -18,6 +18,12 @@ func (t *UpdateTran) VerifSeq() (start, end int) {
 	return t.ct.start, t.ct.end
 }
 
+// VerifOff returns the offset of the persisted state that Asof moved the transaction to
+// (0 for the current state).
+func (t *ReadTran) VerifOff() uint64 {
+	return t.off
+}
+
 // VerifStateLen and VerifTailSize export file format constants
 // so that a crash oracle does not have to hard-code them.
 const VerifStateLen = stateLen
